@@ -86,6 +86,9 @@ pub struct RowSpec {
     /// per rate limb: 0 = exposed output not consumed, 1 = read by an ALU row, 2 = connected to a
     /// public input holding the expected value
     pub consume: Vec<u8>,
+    /// expose the MMCS index accumulator of this (Merkle continuation) row through a public input
+    #[serde(default)]
+    pub idx: bool,
 }
 
 #[derive(Serialize, Deserialize, Clone, Debug)]
@@ -164,7 +167,8 @@ fn gen_rows<C: Cfg>(rng: &mut SmallRng, pc: PermConfig) -> Vec<RowSpec> {
             let n_exp = if !expose { 0 } else if chance(rng, 1, 6) { rng.random_range(1..=re) } else { re };
             let out_ctl: Vec<bool> = (0..re).map(|j| j < n_exp).collect();
             let consume: Vec<u8> = out_ctl.iter().map(|e| if *e { [1u8, 2, 2, 0][rng.random_range(0..4usize)] } else { 0 }).collect();
-            rows.push(RowSpec { ns: k == 0, mk: merkle, bit: merkle && chance(rng, 1, 2), bit_const: chance(rng, 1, 4), limbs, sibling, out_ctl, consume });
+            let idx = merkle && k > 0 && last && chance(rng, 1, 3);
+            rows.push(RowSpec { ns: k == 0, mk: merkle, bit: merkle && chance(rng, 1, 2), bit_const: chance(rng, 1, 4), limbs, sibling, out_ctl, consume, idx });
         }
     }
     rows
@@ -202,6 +206,53 @@ fn gen_spec<C: Cfg>(rng: &mut SmallRng) -> Spec {
                 }
             }
         }
+    }
+    // one spec in four: the permutation table gets exactly 2^k rows (no padding row) and ends with
+    // a Merkle continuation row that exposes the index accumulator
+    if chance(rng, 1, 4) {
+        let count = |g: &Gadget| -> usize {
+            match g {
+                Gadget::Rows(r) => r.len(),
+                Gadget::Mmcs { openings, bits, .. } => {
+                    bits.len() + (1..bits.len()).filter(|i| !openings[*i].is_empty()).count() + usize::from(openings.len() > bits.len() && !openings[bits.len()].is_empty())
+                }
+                Gadget::HashSlice { inputs } => inputs.len().div_ceil(re),
+            }
+        };
+        let mut tail = gen_rows::<C>(rng, pc);
+        // keep only a final Merkle chain of length >= 2
+        let mk_len = 2 + rng.random_range(0..3usize);
+        tail.clear();
+        for k in 0..mk_len {
+            let mut limbs: Vec<Option<Vec<u64>>> = vec![None; pc.width_ext()];
+            if k == 0 {
+                for l in limbs.iter_mut().take(re) {
+                    *l = Some(rand_limb::<C>(rng));
+                }
+            }
+            let last = k == mk_len - 1;
+            tail.push(RowSpec {
+                ns: k == 0,
+                mk: true,
+                bit: chance(rng, 1, 2),
+                bit_const: false,
+                limbs,
+                sibling: Some((0..ce).map(|_| rand_limb::<C>(rng)).collect()),
+                out_ctl: (0..re).map(|_| last).collect(),
+                consume: (0..re).map(|_| if last { 2 } else { 0 }).collect(),
+                idx: last,
+            });
+        }
+        let so_far: usize = gadgets.iter().map(count).sum::<usize>() + tail.len();
+        let target = so_far.next_power_of_two();
+        let mut filler = vec![];
+        for _ in so_far..target {
+            let mut limbs: Vec<Option<Vec<u64>>> = vec![None; pc.width_ext()];
+            limbs[0] = Some(rand_limb::<C>(rng));
+            filler.push(RowSpec { ns: true, mk: false, bit: false, bit_const: false, limbs, sibling: None, out_ctl: vec![false; re], consume: vec![0; re], idx: false });
+        }
+        filler.extend(tail);
+        gadgets.push(Gadget::Rows(filler));
     }
     Spec { config: C::NAME.to_string(), gadgets }
 }
@@ -271,6 +322,7 @@ fn build_npo<C: Cfg>(spec: &Spec) -> Result<BuiltNpo<C>, String> {
     let mut private = vec![];
     let mut sh = Shadow::<C> { last_normal: None, last_merkle: None };
     let seven = b.define_const(eel::<C>(&[7]));
+    let mut acc: u64 = 0;
     let pubin = |b: &mut CircuitBuilder<EOf<C>>, publics: &mut Vec<EOf<C>>, v: EOf<C>| -> ExprId {
         publics.push(v);
         b.public_input()
@@ -283,8 +335,16 @@ fn build_npo<C: Cfg>(spec: &Spec) -> Result<BuiltNpo<C>, String> {
                     let inputs: Vec<Option<ExprId>> = vals.iter().map(|v| v.map(|v| pubin(&mut b, &mut publics, v))).collect();
                     let bitv = if r.bit { EOf::<C>::ONE } else { EOf::<C>::ZERO };
                     let mmcs_bit = if r.mk { Some(if r.bit_const { b.define_const(bitv) } else { pubin(&mut b, &mut publics, bitv) }) } else { None };
+                    // index accumulator as the trace generators compute it: reset on a chain start,
+                    // acc' = 2 acc + bit on a Merkle continuation row
+                    if r.ns || !r.mk {
+                        acc = 0;
+                    } else {
+                        acc = 2 * acc + u64::from(r.bit);
+                    }
+                    let mmcs_index_sum = if r.idx && r.mk && !r.ns { Some(pubin(&mut b, &mut publics, eel::<C>(&[acc]))) } else { None };
                     let (op_id, outs) = b
-                        .add_perm(pc, &PermCall { new_start: r.ns, merkle_path: r.mk, mmcs_bit, mmcs_bit2: None, inputs, out_ctl: r.out_ctl.clone(), return_all_outputs: false, mmcs_index_sum: None })
+                        .add_perm(pc, &PermCall { new_start: r.ns, merkle_path: r.mk, mmcs_bit, mmcs_bit2: None, inputs, out_ctl: r.out_ctl.clone(), return_all_outputs: false, mmcs_index_sum })
                         .map_err(|e| format!("add_perm: {e:?}"))?;
                     let sib: Option<Vec<EOf<C>>> = r.sibling.as_ref().map(|s| s.iter().map(|c| eel::<C>(c)).collect());
                     if let Some(s) = &sib {
@@ -633,11 +693,57 @@ fn one_spec<C: Cfg>(spec: &Spec, rng: &mut SmallRng, key: &str, max_forgeries: u
     if !honest_broken.is_empty() {
         return vec![CaseResult::inconclusive(key, format!("row model disagrees with the honest execution: {:?}", honest_broken[0]))];
     }
+    // C10 side of the same execution: a row program the builder accepted, run on satisfying inputs,
+    // must be provable and verifiable (key `C10:npo:..`, imported by c10)
+    let pow2 = rows.len().is_power_of_two();
+    let idx_exposed = spec.gadgets.iter().any(|g| matches!(g, Gadget::Rows(rs) if rs.iter().any(|r| r.idx)));
+    let c10_key = format!("C10:npo:{}:{}", spec.config, fnv(&serde_json::to_string(spec).unwrap_or_default()));
     match accepted(&traces) {
         Ok(true) => {}
-        _ => return vec![CaseResult::inconclusive(key, "honest trace not proven/accepted (C10 territory)")],
+        _ => {
+            // C09 side: does upstream's lookup debugger see an unbalanced witness bus on this honest run?
+            let c09_key = format!("C09:npo:{}:{}", spec.config, fnv(&serde_json::to_string(spec).unwrap_or_default()));
+            // the verifier's own diagnosis: a lookup / cumulative-sum error means the bus of this
+            // honest execution does not balance
+            let why = match guarded(|| <C::S as Setup>::prove(&kit.prover, &traces, &kit.cpd)) {
+                Ok(Ok(proof)) => match guarded(|| <C::S as Setup>::verify(&kit.prover, &proof)) {
+                    Ok(Ok(())) => "accepted-but-not-bound".to_string(),
+                    Ok(Err(e)) => format!("verify: {e}"),
+                    Err(p) => format!("verify panic: {}", panic_site(&p)),
+                },
+                Ok(Err(e)) => format!("prove: {e}"),
+                Err(p) => format!("prove panic: {}", panic_site(&p)),
+            };
+            let busy = ["Lookup", "lookup", "Cumulative", "cumulative", "GlobalSum", "global"].iter().any(|k| why.contains(k));
+            let c09 = if busy {
+                CaseResult::violated(
+                    c09_key,
+                    format!("bus/npo-row-program/verifier-lookup-error/{}", spec.config),
+                    detail0(json!({"class": "honest", "rows": rows.len(), "rows_power_of_two": pow2, "index_exposed": idx_exposed, "error": why.chars().take(200).collect::<String>()})),
+                )
+            } else {
+                CaseResult::inconclusive(c09_key, format!("honest row program unprovable for a reason that is not a lookup error: {}", why.chars().take(80).collect::<String>()))
+            };
+            return vec![
+                c09,
+                CaseResult::inconclusive(key, "honest trace not proven/accepted (reported under C10)"),
+                CaseResult::violated(c10_key, format!("npo-row-program/honest-unprovable/{}", spec.config), detail0(json!({"class": "honest", "rows": rows.len(), "rows_power_of_two": pow2, "index_exposed": idx_exposed}))),
+            ];
+        }
     }
-    let mut out = vec![CaseResult::held(format!("{key}|honest"), false).count("npo/honest-accepted", 1).count(format!("npo/rows/{}", rows.len().min(12)), 1)];
+    let mut out = vec![
+        CaseResult::held(format!("{key}|honest"), false).count("npo/honest-accepted", 1).count(format!("npo/rows/{}", rows.len().min(12)), 1),
+        CaseResult::held(format!("C09:npo:{}:{}", spec.config, fnv(&serde_json::to_string(spec).unwrap_or_default())), true)
+            .count("npo-row-program/bus-balanced-honest-proof-accepted", 1)
+            .count(format!("npo-row-program/index-accumulator-exposed/{idx_exposed}"), 1),
+        CaseResult::held(c10_key, true)
+            .count("npo-row-program/honest-proved", 1)
+            .count(format!("npo-row-program/table-rows-power-of-two/{pow2}"), 1)
+            .count(format!("npo-row-program/index-accumulator-exposed/{idx_exposed}"), 1),
+    ];
+    if honest_only() {
+        return out;
+    }
     // which rows have a private (free) sibling: Merkle rows whose sibling half is not CTL-loaded
     let free_sib = |r: &Row| r.mk && !(re..2 * re).any(|i| r.in_ctl[i]);
     // enumerate forgeries
@@ -756,6 +862,14 @@ fn one_spec<C: Cfg>(spec: &Spec, rng: &mut SmallRng, key: &str, max_forgeries: u
     out
 }
 
+fn honest_only() -> bool {
+    static V: std::sync::OnceLock<bool> = std::sync::OnceLock::new();
+    *V.get_or_init(|| {
+        let a: Vec<String> = std::env::args().collect();
+        a.windows(2).any(|w| w[0] == "--emit" && (w[1] == "C10" || w[1] == "C09")) || a.iter().any(|x| x == "--honest-only")
+    })
+}
+
 fn commitment_json_of<C: Cfg>(kit: &ProveKit<SCOf<C>>) -> String {
     p3r_verif::fields::commitment_json(kit.cpd.common_data())
 }
@@ -854,7 +968,12 @@ fn main() {
         use std::io::Write;
         let out = std::io::stdout();
         let mut o = out.lock();
-        for r in &results {
+        let prefix = match emit.as_deref() {
+            Some("C10") => "C10:",
+            Some("C09") => "C09:",
+            _ => "",
+        };
+        for r in results.iter().filter(|r| if prefix.is_empty() { !r.key.starts_with("C10:") && !r.key.starts_with("C09:") } else { r.key.starts_with(prefix) }) {
             let _ = writeln!(o, "R {}", case_to_json(r));
         }
         let _ = o.flush();
